@@ -48,14 +48,14 @@ type fdef struct {
 }
 
 var schemaFields = map[string][]fdef{
-	"Query": {{"as", "A", true, ""}, {"a", "A", false, "i"}, {"us", "U", true, ""}, {"u1", "U", false, ""}, {"bs", "B", true, ""}, {"n", "Int", false, ""}, {"ds", "D", true, ""}, {"bs2", "B", true, ""}},
+	"Query":    {{"as", "A", true, ""}, {"a", "A", false, "i"}, {"us", "U", true, ""}, {"u1", "U", false, ""}, {"bs", "B", true, ""}, {"n", "Int", false, ""}, {"ds", "D", true, ""}, {"bs2", "B", true, ""}},
 	"Mutation": {{"touchA", "A", false, "i"}, {"touchP", "P", false, "i"}},
-	"P":     {{"n", "Int", false, ""}, {"a", "A", false, ""}},
-	"D":     {{"id", "Int", false, ""}, {"tags", "String", true, ""}, {"v", "Int", false, ""}},
-	"A":     {{"id", "Int", false, ""}, {"name", "String", false, ""}, {"tag", "String", false, "x"}, {"score", "Int", false, ""}, {"b", "B", false, ""}, {"bs", "B", true, ""}, {"u", "U", false, ""}, {"nb", "B", false, ""}},
-	"B":     {{"id", "Int", false, ""}, {"val", "Int", false, ""}, {"a", "A", false, ""}, {"cs", "C", true, ""}, {"label", "String", false, "p"}},
-	"C":     {{"id", "Int", false, ""}, {"w", "Int", false, ""}},
-	"F":     {{"id", "Int", false, ""}, {"tags", "String", true, ""}},
+	"P":        {{"n", "Int", false, ""}, {"a", "A", false, ""}},
+	"D":        {{"id", "Int", false, ""}, {"tags", "String", true, ""}, {"v", "Int", false, ""}},
+	"A":        {{"id", "Int", false, ""}, {"name", "String", false, ""}, {"tag", "String", false, "x"}, {"score", "Int", false, ""}, {"b", "B", false, ""}, {"bs", "B", true, ""}, {"u", "U", false, ""}, {"nb", "B", false, ""}},
+	"B":        {{"id", "Int", false, ""}, {"val", "Int", false, ""}, {"a", "A", false, ""}, {"cs", "C", true, ""}, {"label", "String", false, "p"}},
+	"C":        {{"id", "Int", false, ""}, {"w", "Int", false, ""}},
+	"F":        {{"id", "Int", false, ""}, {"tags", "String", true, ""}},
 }
 
 func fieldDef(typ, name string) fdef {
@@ -75,6 +75,7 @@ type gen struct {
 	noD    bool // the federated schema has no D type
 	nb     bool // select the non-null field A.nb as well
 	bs2    bool // select the root field bs2 (served by a non-root service in the federated world)
+	inDef  int  // > 0 while the body of a named fragment is being generated
 	dirs   bool // the query declares $t / $f and carries @skip / @include directives
 	c      *runner.Ctx
 	w      *world
@@ -188,7 +189,9 @@ func (g *gen) addTwins(root *qset) {
 // fragments are created or spread (keeps the definitions acyclic).
 func (g *gen) genSetNoNamed(typ string, depth int) *qset {
 	saved := g.named
+	g.inDef++
 	set := g.genSetPlain(typ, depth)
+	g.inDef--
 	g.named = saved
 	return set
 }
@@ -279,9 +282,17 @@ func (g *gen) genUnionSet(depth int) *qset {
 		if k == 0 && len(set.frags) > 0 {
 			continue // member without fragment
 		}
-		set.frags = append(set.frags, &qfrag{on: m, set: g.genSetPlain(m, depth+1)})
+		// the member's selections: plain, or with inline and named fragments
+		// of their own nested inside the member fragment
+		member := func() *qset {
+			if g.inDef == 0 && g.budget > 0 && g.c.Choose(3, "union-member-nested-fragments") == 1 {
+				return g.genSet(m, depth+1)
+			}
+			return g.genSetPlain(m, depth+1)
+		}
+		set.frags = append(set.frags, &qfrag{on: m, set: member()})
 		if k == 1 {
-			set.frags = append(set.frags, &qfrag{on: m, set: g.genSetPlain(m, depth+1)})
+			set.frags = append(set.frags, &qfrag{on: m, set: member()})
 		}
 	}
 	return set
@@ -653,8 +664,6 @@ func (e *evaluator) union(r ref, sets []*qset, p []string) interface{} {
 	return e.objectSels(r.typ, oid, sels, p)
 }
 
-
-
 // doomedQuery draws a request that is well-formed GraphQL but cannot be
 // executed: a @skip / @include whose "if" argument is missing, null, unset or
 // not a boolean. The only acceptable outcome is an error answer.
@@ -683,7 +692,6 @@ func doomedQuery(c *runner.Ctx) (string, map[string]interface{}) {
 	}
 	return texts[k], vars
 }
-
 
 // wildJSON draws an arbitrary JSON value (depth-limited).
 func wildJSON(c *runner.Ctx, depth int) interface{} {
